@@ -216,3 +216,7 @@ mod test {
         assert!(loan.get_mut().is_none(), "access revoked");
     }
 }
+
+#[cfg(kani)]
+#[path = "/verif/kani/aranya-fast-channels/lender.rs"]
+mod verif_kani;
